@@ -15,10 +15,10 @@ from . import _conn as K
 CLAUSES = ('owned-uncommitted', 'state-lost', 'stale', 'dirty-idle', 'serial', 'leftover', 'closed-joined')
 DEVS = ('InvalidateDoomed', 'LeakUnstored')        # the deviations whose clauses are this property's
 FOCUS = ('Finish', 'FinishThenFail', 'FailBeforeBegin', 'FailBegun', 'StoreRaises', 'StoreConflict', 'FailStored', 'FailVoted',
-         'CommitSpConflict')
+         'CommitSpConflict', 'CommitSpRaises', 'SavepointRaises')
 NEED = ['Modify', 'Link', 'Unlink', 'AddExplicit', 'Load', 'Begin', 'Store', 'Stored', 'Vote', 'Finish', 'Abort', 'Close',
         'Reopen', 'OtherCommit', 'FailBeforeBegin', 'FailBegun', 'StoreRaises', 'StoreConflict', 'FailStored', 'FailVoted',
-        'FinishThenFail', 'Savepoint', 'CommitSp']
+        'FinishThenFail', 'Savepoint', 'CommitSp', 'SavepointRaises', 'CommitSpRaises']
 
 
 BUDGET = {'committed-objects': 40000, 'new-objects': 38000, 'with-savepoint': 38000, 'one-object': 34000}
@@ -32,7 +32,7 @@ def configs(q):
     one = cd.consts(Obj=('a',), Edges='EdgesFlat', MaxCommit=2, MaxOther=0 if q else 1, MaxAct=3, MaxTail=1,
                     Ops=('add', 'load', 'close', 'own', 'rm', 'free') if q else ('add', 'load', 'close', 'own', 'rm', 'free', 'other'))
     sp = cd.consts(Obj=('a', 'b'), Edges='EdgesFlat', MaxSp=1, MaxCommit=1, MaxAct=4, MaxTail=1,
-                   Ops=('add', 'sp', 'rm', 'close') if q else ('add', 'sp', 'rm', 'close', 'own', 'load'))
+                   Ops=('add', 'sp', 'rm', 'close', 'own') if q else ('add', 'sp', 'rm', 'close', 'own', 'load'))
     return [('new-objects', new), ('committed-objects', pre), ('one-object', one), ('with-savepoint', sp)]
 
 
